@@ -20,7 +20,7 @@ COMPONENTS = {"real": ["ECAgent.Core.SystemManager.execute_systems (activation p
               "stub": ["System.execute bodies are harness recorders"]}
 PROBES = ["fired_at_end", "silent_after_end", "negative_start", "end_before_start", "late_registration_out_of_phase",
           "late_registration_in_phase", "bad_n_rejected", "freq_beyond_horizon", "bare_execute_systems", "reregistered_after_removal", "registered_from_inside_a_step",
-          "registered_inside_multi_step_request"]
+          "registered_inside_multi_step_request", "str_subclass_id"]
 TECHNIQUE = "deterministic simulation: model clock stepped through the real scheduler vs a reference timer wheel and a single-stepped twin model"
 LEVEL_TEXT = ("Seeded search over timer windows, registration instants and advance patterns; every firing of every timestep is "
               "compared with the predicate start<=t<=end and (t-start)%f==0, the clock with the count of accepted steps, "
@@ -53,7 +53,8 @@ def generate(rng, tier):
         freq = rng.choice([1, 1, 2, 2, 3, 3, 4, 5, 6, 7, 8, 9])
         if rng.random() < 0.05:
             freq = horizon + rng.randint(1, 50)
-        systems.append({"id": f"s{i}", "prio": gen_prio(rng) if rng.random() < 0.3 else rng.choice([-1, 0, 1]),
+        systems.append({"id": f"s{i}", "strsub": rng.random() < 0.15,
+                        "prio": gen_prio(rng) if rng.random() < 0.3 else rng.choice([-1, 0, 1]),
                         "start": start, "end": end, "freq": freq})
     ops = []
     pending = list(range(n))
@@ -104,6 +105,11 @@ def generate(rng, tier):
     return {"systems": systems, "ops": ops, "spawns": spawns}
 
 
+class SID(str):
+    """A system id type that is a str subclass (e.g. a str-valued Enum member in user code)."""
+    __slots__ = ()
+
+
 class World:
     def __init__(self, model, sc=None):
         self.model = model
@@ -120,6 +126,8 @@ class World:
             if sp["t"] == t and self.systems and self.systems[sp["by"] % len(self.systems)]["id"] == s.id:
                 spec = spec_defaults(self.systems[sp["k"] % len(self.systems)])
                 if spec["id"] not in self.reg and spec["freq"] >= 1:
+                    if spec.get("strsub"):
+                        spec = dict(spec, id=SID(spec["id"]))
                     self.model.systems.add_system(Rec(spec, self.model, self))
                     self.reg.add(spec["id"])
 
@@ -199,8 +207,11 @@ def execute(sc, ctx):
                 ctx.probe("reregistered_after_removal")
             if spec["freq"] < 1:
                 continue
-            ctx.expect_ok("add", m.systems.add_system, Rec(spec, m, w))
-            ctx.expect_ok("add-twin", twin.systems.add_system, Rec(spec, twin, wt))
+            rspec = dict(spec, id=SID(spec["id"])) if spec.get("strsub") else spec
+            if spec.get("strsub"):
+                ctx.probe("str_subclass_id")
+            ctx.expect_ok("add", m.systems.add_system, Rec(rspec, m, w))
+            ctx.expect_ok("add-twin", twin.systems.add_system, Rec(rspec, twin, wt))
             w.reg.add(spec["id"])
             wt.reg.add(spec["id"])
             ref.add(spec)
